@@ -66,7 +66,7 @@ ENTRIES = [
     B('next-request-kept-on-final', W, "        else:\n            self._next_request = None\n            self._loop_type = LoopType.normal\n\n        if self._cookie_jar:",
       "        else:\n            self._loop_type = LoopType.normal\n\n        if self._cookie_jar:", 'C18-D1'),
     # ---------------------------------------------------------------- D1 loops
-    B('fetch-error-does-not-stop', P, "            if response:\n                response.body.close()\n\n            return True, wait_time", "            if response:\n                response.body.close()\n\n            return False, wait_time", 'C18-D1'),
+    B('fetch-error-does-not-stop', P, "            if response and response.body:\n                response.body.close()\n\n            return True, wait_time", "            if response and response.body:\n                response.body.close()\n\n            return False, wait_time", 'C18-D1'),
     B('exit-early-ignored', P, "            if exit_early:\n                break\n", "", 'C18-D1'),
     B('robots-loop-continues-on-error', RB, "                    except ProtocolError:\n                        self._accept_as_blank(url_info)\n\n                        return",
       "                    except ProtocolError:\n                        continue", 'C18-D1'),
@@ -120,7 +120,7 @@ ENTRIES = [
     N('replay-drops-host-headers', W, "                request = self._original_request.copy()\n                request.url = url\n",
       "                request = self._original_request.copy()\n                request.url = url\n                request.fields.pop('Host', None)\n\n                if request.url_info.hostname_with_port != \\\n                        self._original_request.url_info.hostname_with_port:\n                    request.fields.pop('Authorization', None)\n                    request.fields.pop('Cookie', None)\n"),
     N('done-direct-field', W, "        return self.next_request() is None", "        return self._next_request is None"),
-    N('fetch-error-stop-local', P, "            if response:\n                response.body.close()\n\n            return True, wait_time", "            if response:\n                response.body.close()\n\n            stop = True\n            _logger.debug('Stopping after error.')\n            return stop, wait_time"),
+    N('fetch-error-stop-local', P, "            if response and response.body:\n                response.body.close()\n\n            return True, wait_time", "            if response and response.body:\n                response.body.close()\n\n            stop = True\n            _logger.debug('Stopping after error.')\n            return stop, wait_time"),
     N('exit-early-continue-form', P, "            if exit_early:\n                break\n", "            if not exit_early:\n                continue\n\n            break\n"),
     N('factory-lambda', D, "        redirect_factory = functools.partial(\n            session.factory.class_map['RedirectTracker'],\n            max_redirects=session.args.max_redirect\n        )",
       "        args = session.args\n        redirect_factory = lambda: session.factory.class_map['RedirectTracker'](max_redirects=args.max_redirect)"),
